@@ -535,6 +535,9 @@ func (a *allowerContext) aliasEventAllowed(event PDU) error {
 	// Check that event is a state event.
 	// Check that the state key matches the server sending this event.
 	// https://github.com/matrix-org/synapse/blob/v0.18.5/synapse/api/auth.py#L158
+	if event.StateKey() == nil {
+		return errorf("alias event must be a state event")
+	}
 	switch event.Version() {
 	case RoomVersionPseudoIDs:
 		if !event.StateKeyEquals(string(event.SenderID())) {
